@@ -324,6 +324,14 @@ func (server *Server) readRequestBody(ctx *Context) (err error) {
 		}
 	} else if ctx.upgrade.Stream == streaming {
 	} else {
+		if ctx.upgrade.NoRequest == noRequest || ctx.upgrade.NoResponse == noResponse {
+			// Only heartbeats and stream control messages, which are handled
+			// before this point, carry these flags; an ordinary call needs
+			// both its arguments and its reply.
+			err = errors.New("unsupported upgrade flags")
+			codec.ReadRequestBody(nil, nil)
+			return
+		}
 		if ctx.upgrade.NoRequest != noRequest {
 			ctx.f = server.Funcs.GetFunc(ctx.ServiceMethod)
 			if ctx.f == nil {
@@ -412,7 +420,11 @@ func (server *Server) callService(ctx *Context) {
 func (server *Server) sendResponse(ctx *Context) {
 	var reply interface{}
 	if len(ctx.Error) == 0 && ctx.upgrade.NoResponse != noResponse {
-		reply = ctx.reply.Interface()
+		if ctx.reply == funcs.ZeroValue {
+			ctx.Error = "can't find reply"
+		} else {
+			reply = ctx.reply.Interface()
+		}
 	}
 	err := ctx.codec.WriteResponse(ctx, reply)
 	if err != nil {
